@@ -56,6 +56,8 @@ def main():
                 [rng.getrandbits(32) for _ in range(8 if args.tier == "quick" else 200)]
         for i in range(0, len(masks), 6):
             cases.append({"kind": "opmode", "masks": masks[i:i + 6], "modes": MODES, "transport": "sdo"})
+            cases.append({"kind": "opmode", "masks": masks[i:i + 6], "modes": MODES, "transport": "pdo",
+                          "seed": rng.randrange(1 << 30)})
     results = run_cases("harness.drv_p402:run_case", cases, jobs=args.jobs, timeout=180)
     if any(r.get("hang") for r in results):
         raise RuntimeError("driver hang")
